@@ -850,7 +850,7 @@ def make_programs(ctx):
     cols0 = {"a": "int", "b": "int", "s": "str"}
     progs = corpus()
     n_corpus = len(progs)
-    n_rand = 170 if ctx.tier == "quick" else 2600
+    n_rand = 150 if ctx.tier == "quick" else 2600
     for _ in range(n_rand):
         progs.append(g.program(cols0, 5 if ctx.tier == "quick" else 8))
     return progs, n_corpus
